@@ -24,6 +24,13 @@ for out in sorted(Path("/tmp/mut").glob("C*_out")):
         shutil.copy(demo, d / "demo.py")
         m = json.loads(meta.read_text()) if meta.exists() else {}
         det_j = json.loads(det.read_text()) if det.exists() else None
+        other = {}
+        for f in out.glob(f"detect_{k}_by_*.txt"):
+            import re as _re
+            t = f.read_text()
+            mm = _re.search(r"^exit=(\d+)", t, _re.M)
+            other[f.stem.split("_by_")[1]] = {"exit": int(mm.group(1)) if mm else -1,
+                "first_reports": [l[:300] for l in t.splitlines() if "violation:" in l][:2]}
         m2 = {
             "id": f"{prop}-{k}", "property": prop,
             "summary": m.get("summary"), "what_breaks": m.get("what_breaks"),
@@ -32,10 +39,14 @@ for out in sorted(Path("/tmp/mut").glob("C*_out")):
             "confirmed_by_main": {"how": "harness/tools/confirm_mutant.sh in a scratch worktree: full test suite with the change; "
                                          "demo.py with and without the change", **c},
             "detection": det_j,
+            "detected_by_other_checks": other,
             "how_to_run": f"git -C /repo apply /verif/seeded/{prop}-{k}/patch.diff && (cd /verif && ./check {prop}); git -C /repo checkout -- .",
         }
         (d / "meta.json").write_text(json.dumps(m2, indent=1) + "\n")
         caught = "caught (exit %s)" % det_j["exit"] if det_j and det_j["exit"] == 1 else ("MISSED" if det_j else "not evaluated")
+        for oc, od in other.items():
+            if od["exit"] == 1:
+                caught += f"; caught by ./check {oc}"
         rows.append((f"{prop}-{k}", (m.get("summary") or "")[:110], caught))
 lines = ["# Seeded changes", "",
     "Each directory holds one source change written by an independent sub-agent that saw only the property text and its own",
